@@ -18,7 +18,11 @@ class C18:
         # jobs with different timeouts, the longer one queued first: every deadline still holds after a restart
         deadlines = narrow_cfg(tier, {"add", "pull", "tick", "wait", "finish"}, workers=("w1",), timeouts=(100.0, 10.0, 50.0), maxjobs=3,
                                bound=8 if tier == "quick" else 10, maxrestarts=1)
+        # jobs finished with results that are falsy in Python (0, '', [], {}, false): they are results, not "no result"
+        falsy = narrow_cfg(tier, {"add", "pull", "finish", "wait"}, workers=("w1",), finish_kinds=("zero", "emptystr", "emptylist", "emptydict", "false"),
+                           maxjobs=2, bound=9 if tier == "quick" else 11, maxrestarts=1)
         return X.search_phases(self.id, [("wide", cfg, cap), ("ids-deep", ids, 60 if tier == "quick" else 600),
+                                         ("falsy-results", falsy, 60 if tier == "quick" else 300),
                                          ("mixed-ids", mixed, 60 if tier == "quick" else 600),
                                          ("deadlines", deadlines, 60 if tier == "quick" else 300)], tier, seed, self.families,
                                post_restart_only=True,
